@@ -942,6 +942,56 @@ def gen_name_funcs(t_utils: ast.Module) -> List[str]:
             f"Definition name_funcs_unguarded : list string := {clist(cstr(u) for u in unguarded)}."]
 
 
+def gen_name_regexes(rels: Sequence[str]) -> Tuple[List[str], int]:
+    """Every regular expression the name converters / the linter compile (module-level
+    `X = re.compile(r"...")`), as Re.re terms with their anchors split off.  Any other use of the
+    `re` module in these files (inline patterns, flags) is rejected: it would escape the
+    flatness check of theories/ReLinear.v."""
+    rows = []
+    notes: List[str] = []
+    for rel in rels:
+        _, tree = _src(rel)
+        base = os.path.basename(rel)
+        compiled: Dict[str, int] = {}
+        for n in tree.body:
+            if isinstance(n, ast.Assign) and len(n.targets) == 1 and isinstance(n.targets[0], ast.Name) \
+                    and isinstance(n.value, ast.Call) and ast.unparse(n.value.func) == "re.compile":
+                c = n.value
+                if len(c.args) != 1 or c.keywords or not (isinstance(c.args[0], ast.Constant)
+                                                           and isinstance(c.args[0].value, str)):
+                    raise Broken(f"translator(C09): {base}: re.compile with flags or a non-literal pattern",
+                                 ast.unparse(n)[:200])
+                name = n.targets[0].id
+                pat = c.args[0].value
+                with warnings.catch_warnings():
+                    warnings.simplefilter("ignore")
+                    try:
+                        items = list(sre_parse.parse(pat, 0))
+                    except Exception as e:  # noqa
+                        raise Broken(f"translator(C09): {base}:{name}: regex does not parse", str(e))
+                a0 = a1 = False
+                if items and str(items[0][0]) == "AT" and str(items[0][1]) == "AT_BEGINNING":
+                    a0, items = True, items[1:]
+                if items and str(items[-1][0]) == "AT" and str(items[-1][1]) == "AT_END":
+                    a1, items = True, items[:-1]
+                term = sre_items(items, True, notes, f"{base}:{name}")
+                compiled[name] = n.lineno
+                rows.append(f"({cstr(name)}, ({'true' if a0 else 'false'}, {'true' if a1 else 'false'}), {term}) "
+                            f"(* {base}:{n.lineno}  " + ccomment(repr(pat)) + " *)")
+        for n in ast.walk(tree):
+            if isinstance(n, ast.Attribute) and isinstance(n.value, ast.Name) and n.value.id == "re" \
+                    and n.attr not in ("compile",):
+                raise Broken(f"translator(C09): {base}: use of re.{n.attr} outside a module-level re.compile "
+                             f"(line {n.lineno})")
+            if isinstance(n, ast.Call) and ast.unparse(n.func) == "re.compile" and not any(
+                    isinstance(m, ast.Assign) and m.value is n for m in tree.body):
+                raise Broken(f"translator(C09): {base}: re.compile that is not a module-level assignment "
+                             f"(line {n.lineno})")
+    text = ("(* every regex compiled by utils.py / linter.py: (name, (anchored at start, anchored at end), regex) *)\n"
+            "Definition name_regexes : list (string * (bool * bool) * re) :=\n  [ " + "\n  ; ".join(rows) + " ].")
+    return [text], len(rows)
+
+
 def gen_source_reading(t_par: ast.Module, parser_errors: Set[str]) -> List[str]:
     """Parser.parse (how the file is read) and p_import (is a NUL in the path refused first?)"""
     out = []
@@ -1126,6 +1176,14 @@ def gen_c09() -> Tuple[str, Dict[str, str]]:
     out.extend(gen_source_reading(t_par, parser_errors))
     _, t_utils = _src("compiler/bitproto/utils.py")
     out.extend(gen_name_funcs(t_utils))
+    rx, n_rx = gen_name_regexes(["compiler/bitproto/utils.py", "compiler/bitproto/linter.py"])
+    out.extend(rx)
+    out.append("(* the token regexes translated above, in the same table shape *)\n"
+               "Definition token_regexes : list (string * (bool * bool) * re) :=\n  [ "
+               + "\n  ; ".join(f"({cstr(r)}, (true, false), {c})" for r, c in
+                                (("t_STRING_LITERAL", "string_literal_re"), ("t_INT_LITERAL", "int_literal_re"),
+                                 ("t_HEX_LITERAL", "hex_literal_re"), ("t_UINT_TYPE", "uint_type_re"),
+                                 ("t_INT_TYPE", "int_type_re"))) + " ].")
     out.append("")
     out.append("(* notes of the translator:")
     for n in sorted(set(notes)):
